@@ -50,6 +50,7 @@ Section Refine.
   Variable V : variant.
   Variable R : registry.
   Variables c1 c2 : cleaner.
+  Variable refuse : bool.
   Hypothesis Hc : forall n v, covered (c1 n v) (c2 n v).
 
   Lemma cov_check_slot : forall kind vr s val, covered (check_slot c1 kind vr s val) (check_slot c2 kind vr s val).
@@ -102,7 +103,7 @@ Section Refine.
   Qed.
 
   Lemma cov_dict_to_stix2 : forall dec d nonstr ac version,
-    covered (dict_to_stix2 V R c1 dec d nonstr ac version) (dict_to_stix2 V R c2 dec d nonstr ac version).
+    covered (dict_to_stix2 V R c1 refuse dec d nonstr ac version) (dict_to_stix2 V R c2 refuse dec d nonstr ac version).
   Proof.
     intros. unfold dict_to_stix2.
     apply covered_bind; [apply covered_refl|intros has].
@@ -115,11 +116,11 @@ Section Refine.
     apply covered_seq; [apply covered_refl|]. apply covered_seq; [apply cov_construct|apply covered_refl].
   Qed.
 
-  Lemma cov_parse : forall dec x ac version, covered (parse V R c1 dec x ac version) (parse V R c2 dec x ac version).
+  Lemma cov_parse : forall dec x ac version, covered (parse V R c1 refuse dec x ac version) (parse V R c2 refuse dec x ac version).
   Proof. intros. unfold parse. apply covered_bind; [apply covered_refl|intros; apply cov_dict_to_stix2]. Qed.
 
   Lemma cov_parse_observable : forall dec x vr ac version,
-    covered (parse_observable V R c1 dec x vr ac version) (parse_observable V R c2 dec x vr ac version).
+    covered (parse_observable V R c1 refuse dec x vr ac version) (parse_observable V R c2 refuse dec x vr ac version).
   Proof.
     intros. unfold parse_observable.
     apply covered_bind; [apply covered_refl|intros d].
